@@ -28,7 +28,18 @@ EXPLANATION = ("representation invariant RI: connected => a writer exists and is
                "writer, or OSError and unchanged state; disconnect/__aexit__: not connected and the writer closed and awaited); any "
                "history is then an alternation in which 'connected' is true exactly after a successful connect and before the next "
                "disconnect (induction over RI preservation; also enumerated up to length 5)")
-ALPHABET = ["connect_ok", "connect_refused", "op_ok", "op_raise", "disconnect", "enter", "leave", "leave_exc"]
+ALPHABET = ["connect_ok", "connect_refused", "op_ok", "op_raise", "disconnect", "enter", "leave", "leave_exc", "leave_oserror"]
+EXC_TRIPLES = {"none": None, "ValueError": "ValueError", "ConnectionRefusedError": "ConnectionRefusedError", "TimeoutError": "TimeoutError",
+               "CancelledError": "asyncio.CancelledError"}
+
+
+def triple(kind):
+    """(exc_type, exc_value, traceback) as __aexit__ receives them"""
+    from pyvc.interp import ExcClass
+    name = EXC_TRIPLES[kind]
+    if name is None:
+        return [None, None, None]
+    return [ExcClass(name), ExcVal(name, ("body",)), None]
 
 
 def interp_for(unit):
@@ -75,7 +86,8 @@ def units(tier):
         def methods(ip, ctx, kind=kind):
             obs = []
             pre = ["fresh", "connected", "disconnected"][ctx.fork(3)]
-            meth = ["connect", "disconnect", "__aenter__", "__aexit__none", "__aexit__exc"][ctx.fork(5)]
+            meths = ["connect", "disconnect", "__aenter__"] + ["__aexit__" + k for k in EXC_TRIPLES]
+            meth = meths[ctx.fork(len(meths))]
             api = new_api(ip, ctx, kind)
             base0 = f"{PROP}/type{kind}/from_{pre}/{meth}"
             obs.append(Obligation(f"{PROP}/type{kind}/__init__/not_connected", ctx, api.attrs.get("_connected") is False and "_writer" not in api.attrs))
@@ -110,7 +122,7 @@ def units(tier):
                 if meth == "disconnect":
                     ob = outcome_of(lambda: ip.call_function(api.cls.find_method("disconnect"), [api], {}, ctx))
                 else:
-                    args = [None, None, None] if meth.endswith("none") else [PyExcClass(), ExcVal("ValueError", ("body",)), None]
+                    args = triple(meth[len("__aexit__"):])
                     ob = outcome_of(lambda: ip.call_function(api.cls.find_method("__aexit__"), [api] + args, {}, ctx))
                 obs.append(Obligation(base0 + "/returns_None", ctx, ob[0] == "ret" and ob[1] is None, note=str(ob[1]) if ob[0] == "exc" else ""))
                 obs.append(Obligation(base0 + "/not_connected_afterwards", ctx, api.attrs.get("_connected") is False))
@@ -132,14 +144,24 @@ def units(tier):
                 api = new_api(ip, ctx, kind)
                 ctx.now_range = (0, 2 ** 32 - 2)
                 model_conn = False        # reference: true exactly between a successful connect and the next disconnect
+                flag_unknown = False
                 obs = []
                 hist = []
                 for step_no, a in enumerate(seq):
                     hist.append(a)
                     base = f"{PROP}/type{kind}/history/" + ">".join(hist)
+                    if a == "connect_refused" and model_conn:
+                        # a refused RE-connect on a connected client: what the flag should say afterwards is not claimed, but the
+                        # socket of the live session must still be closed by the next disconnect
+                        ob = outcome_of(lambda: ip.call_function(api.cls.find_method("connect"), [api], {}, ctx))
+                        if ob[0] == "ret":
+                            raise_inf()
+                        obs.append(Obligation(base + "/refused_reconnect_raises_OSError", ctx, ob[1].cls == "OSError"))
+                        flag_unknown = True
+                        continue
                     if a in ("connect_ok", "connect_refused", "enter"):
                         if model_conn:
-                            return obs       # connect on a connected client: not claimed; stop this history
+                            return obs       # a second successful connect on a connected client: not claimed; stop this history
                         ctx.reply_script = []
                         nsock = len(getattr(ctx, "sockets", []))
                         ob = outcome_of(lambda: ip.call_function(api.cls.find_method("__aenter__" if a == "enter" else "connect"), [api], {}, ctx))
@@ -167,12 +189,15 @@ def units(tier):
                         obs.append(Obligation(base + "/disconnect_returns", ctx, ob[0] == "ret"))
                         model_conn = False
                     else:
-                        args = [None, None, None] if a == "leave" else [PyExcClass(), ExcVal("ValueError", ("body",)), None]
+                        args = triple({"leave": "none", "leave_exc": "ValueError", "leave_oserror": "ConnectionRefusedError"}[a])
                         ob = outcome_of(lambda: ip.call_function(api.cls.find_method("__aexit__"), [api] + args, {}, ctx))
                         obs.append(Obligation(base + "/leave_returns_None", ctx, ob[0] == "ret" and ob[1] is None))
                         model_conn = False
+                    if a in ("disconnect", "leave", "leave_exc", "leave_oserror"):
+                        flag_unknown = False
                     conn = ip.getattr(api, "connected", ctx)
-                    obs.append(Obligation(base + "/connected_flag", ctx, conn is model_conn))
+                    if not flag_unknown:
+                        obs.append(Obligation(base + "/connected_flag", ctx, conn is model_conn))
                     socks = getattr(ctx, "sockets", [])
                     open_socks = [w for w in socks if not w.state.get("closed")]
                     obs.append(Obligation(base + "/open_sockets", ctx, len(open_socks) == (1 if model_conn else 0) and
